@@ -657,7 +657,7 @@ mod mpp {
 			let before = self.held.len();
 			self.held.retain(|h| !seen.fails.contains(&h.id) && !seen.fulfils.contains(&h.id));
 			if self.held.len() != before { self.claimable_set = None; }
-			if seen.trouble.is_some() { w.bad = true; self.dead = true; }
+			if seen.trouble.is_some() { if std::env::var("C04MPP_WHY").is_ok() { eprintln!("TROUBLE {:?} at `{}` [{}] {}", seen.trouble, op, self.kind, self.history()); } w.bad = true; self.dead = true; }
 		}
 
 		/// drive the nodes under catch_unwind, then deliver everything
@@ -1092,7 +1092,7 @@ mod mpp {
 			let seen = observe(w, &self.hash, 0, 0);
 			for i in &seen.fails { w.failed.insert(*i); }
 			for i in &seen.fulfils { w.fulfilled.insert(*i); }
-			if w.recv_has_pending_htlcs() || !w.net.closed.is_empty() { w.bad = true; }
+			if w.recv_has_pending_htlcs() || !w.net.closed.is_empty() { if std::env::var("C04MPP_WHY").is_ok() { eprintln!("FINISHBAD pending={} closed={:?} [{}] {}", w.recv_has_pending_htlcs(), w.net.closed.iter().map(|c| short(&c.1)).collect::<Vec<_>>(), self.kind, self.history()); } w.bad = true; }
 		}
 	}
 
